@@ -10,6 +10,10 @@ NOT_BUILT = "rules designed (DESIGN.md sections 3-4) but not built yet; not clai
 
 # property -> (technique, level text, level note, design ref)
 CLAIMED = {
+ "C20": ("who-may-write analysis of package-level variables on SSA: direct stores, stores through global-rooted address chains, interprocedural mod-ref summaries ('writes through parameter p') to a fixpoint, frozen list of process-wide standard-library calls",
+         "Structural content of runtime isolation: any run-time write to package-level state (directly, through a pointer held in it, or by a callee) is shared between runtimes and is reported; so are calls into process-wide standard-library state. Behavioural equality of interleaved runs is not decided.",
+         "Trusted: go/ssa, static-call mod-ref summaries. Not decided: races on state reachable only through a shared *Runtime; behavioural equality.",
+         "DESIGN.md 3 (R-GLOBALS), 4 (C20)"),
  "C11": ("error-result def-use (never discarded), dominance of the program-counter store over every error return of the interpreter loop, recover-frame inventory, pool-release path conditions",
          "Structural necessary conditions for errors reaching the nearest protected call with position intact: breaking one drops an error, misattributes its line, lets a frame other than the inventoried ones stop it, or recycles a continuation still needed by error handling.",
          "Trusted: go/ssa. Not decided: value identity on all paths, message text, state consistency after a caught error.",
